@@ -103,6 +103,13 @@ S["two_paths_shift2"] = dict(until=4, sims=[E("A", init_event=0, emit=[0, None, 
 S["shift3_near_end"] = dict(until=4, sims=[E("A", init_event=0, emit_default=0, next=[3]),
                                            T("P"), H("Z")],
                             conns=[C("A", "Z", "eo", "ti", shift=3), C("P", "Z", "po", "mi")])
+# an ordinary and a time_shifted=2 connection between one pair (pulled with the cache on)
+S["two_delays_shift2_pair"] = dict(until=5, sims=[T("A"), T("B")],
+                                   conns=[C("A", "B", "po", "mi"),
+                                          C("A", "B", "po", "po", shift=2, init=True)])
+S["two_delays_shift2_pair_rev"] = dict(until=5, sims=[T("A"), T("B")],
+                                       conns=[C("A", "B", "po", "po", shift=2, init=True),
+                                              C("A", "B", "po", "mi")])
 S["maxadv_inflight"] = dict(until=3, sims=[E("Cc", init_event=0, emit_default=0), E("D", init_event=0)],
                             conns=[C("Cc", "D", "eo", "ti", shift=1)])
 # scenarios with an unresolved cycle (run() must refuse them; if the cycle check lets one through,
